@@ -131,6 +131,12 @@ def run(env, tier, seed, broken=None):
             add('%sa %s b;' % (u, op), ['[', ['expr', binnode(op, ['unary', str(CODE[u] if u != '-' else 8), ident('a')], ident('b'))]])
         add('%sa[0];' % u, ['[', ['expr', ['unary', str(CODE[u] if u != '-' else 8), ['index', ident('a'), ['lit', 'num:0']]]]])
         add('%s%sa;' % (u, u), ['[', ['expr', ['unary', str(CODE[u] if u != '-' else 8), ['unary', str(CODE[u] if u != '-' else 8), ident('a')]]]])
+    UC = {'-': 8, '!': 20, '~': 18}
+    for u1 in UC:
+        for u2 in UC:
+            if u1 != u2:
+                add('%s%sa;' % (u1, u2), ['[', ['expr', ['unary', str(UC[u1]), ['unary', str(UC[u2]), ident('a')]]]])
+                add('b ** %s%sa;' % (u1, u2), ['[', ['expr', ['binary', '17', ident('b'), ['unary', str(UC[u1]), ['unary', str(UC[u2]), ident('a')]]]]])
     add('a(b)(c)[0].k(d);', ['[', ['expr', ['call', ['prop', ['index', ['call', ['call', ident('a'), ['[', ident('b')]], ['[', ident('c')]], ['lit', 'num:0']], '<107>'], ['[', ident('d')]]]])
     # else attaches to the nearest if
     add('%s (a) %s (b) c; %s d;' % (IF, IF, ELSE), ['[', ['if', ident('a'), ['if', ident('b'), ['expr', ident('c')], ['expr', ident('d')]], 'none']])
